@@ -75,10 +75,10 @@ func (e *Env) install() {
 	dial := func(network, addr string, timeout time.Duration) (net.Conn, error) {
 		return e.N.Dial(network, addr, timeout)
 	}
-	tlsDial := func(network, addr string, cfg *tls.Config) (*tls.Conn, error) {
+	tlsDial := func(network, addr string, cfg *tls.Config) (net.Conn, error) {
 		raw, err := e.N.Dial(network, addr, 0)
 		if err != nil {
-			return nil, err
+			return (*tls.Conn)(nil), err // what tls.Dial returns: a typed nil
 		}
 		if cfg == nil {
 			cfg = &tls.Config{}
@@ -92,9 +92,9 @@ func (e *Env) install() {
 		c := tls.Client(raw, cfg)
 		if err := c.Handshake(); err != nil {
 			_ = raw.Close()
-			return nil, err
+			return (*tls.Conn)(nil), err
 		}
-		return c, nil
+		return &SimTLSConn{Conn: c, e: e, mu: make(chan struct{}, 1)}, nil
 	}
 	skew := func(d time.Duration) time.Duration {
 		if d < 0 {
@@ -239,4 +239,52 @@ func ServerCert() tls.Certificate {
 		srvCert = tls.Certificate{Certificate: [][]byte{der}, PrivateKey: priv}
 	})
 	return srvCert
+}
+
+
+// SimTLSConn is the *tls.Conn the proxy gets from its TLS dial seam. crypto/tls
+// serialises Write, CloseWrite and Close's close_notify with a sync.Mutex that is
+// held across writes to the transport; a goroutine parked by the simulator inside
+// such a write while another one waits for that mutex is invisible to synctest (the
+// bubble never quiesces). The wrapper keeps the same ordering with a lock the
+// simulator can see (a channel: durable blocking), so the inner mutex is never
+// contended: Close during a data Write goes straight to the transport (as tls.Conn
+// does), Close during CloseWrite waits for it (as tls.Conn does).
+type SimTLSConn struct {
+	*tls.Conn
+	e       *Env
+	mu      chan struct{}
+	inWrite int
+}
+
+func (c *SimTLSConn) lock()   { c.mu <- struct{}{}; c.e.S.Park("tlsmu") }
+func (c *SimTLSConn) unlock() { <-c.mu }
+
+func (c *SimTLSConn) Write(b []byte) (int, error) {
+	lk()
+	c.inWrite++
+	ulk()
+	n, err := c.Conn.Write(b)
+	lk()
+	c.inWrite--
+	ulk()
+	return n, err
+}
+
+func (c *SimTLSConn) CloseWrite() error {
+	c.lock()
+	defer c.unlock()
+	return c.Conn.CloseWrite()
+}
+
+func (c *SimTLSConn) Close() error {
+	lk()
+	busy := c.inWrite > 0
+	ulk()
+	if busy {
+		return c.Conn.Close() // interlocked with Write inside crypto/tls: closes the transport only
+	}
+	c.lock()
+	defer c.unlock()
+	return c.Conn.Close()
 }
